@@ -472,7 +472,12 @@ let gen_render r ~tier oc =
       "{% if pmix.Title %}y{% endif %}", "y"; "{{ mis[1] }}{{ msi.a }}{{ ss[0] }}{{ arr[2] }}", "a1a3";
       "{{ nmss.a }}{{ nmss['b'] }}{{ nmss.zz }}|{{ nmsa.a }}|{{ nmis[1] }}{{ nmis[9] }}|{{ nmst.T.a }}{{ nmst.N[0] }}", "xy|1|one|t7" ];
   List.iter (fun tpl -> emit_render oc "special" tpl)
-    [ "{% block a %}{% block b %}{% block a %}x{% endblock %}{% endblock %}{% endblock %}"; "{% block a %}{% block b %}{% block c %}{% block a %}x{% endblock %}{% endblock %}{% endblock %}{% endblock %}";
+    [ "{% macro m() %}{% block b %}x{% endblock %}{% endmacro %}{{ m() }}"; "{% macro m(a) %}<{% block b %}{{ a }}{% endblock %}>{% endmacro %}{{ _self.m(1) }}{{ m(2) }}";
+      "{% macro m() %}{% if true %}{% for i in [1] %}{% block b %}x{% endblock %}{% endfor %}{% endif %}{% endmacro %}{% block b %}outer{% endblock %}{{ m() }}";
+      "{% extends 'base' %}{% block body %}{% macro m() %}{% block other %}o{% endblock %}{% endmacro %}{{ m() }}{% endblock %}";
+      "{% macro m() %}{{ parent() }}{% endmacro %}{{ m() }}"; "{% macro m() %}{% extends 'base' %}{% endmacro %}{{ m() }}"; "{% macro m() %}{% include 'inc' %}{% block body %}b{% endblock %}{% endmacro %}{{ m() }}";
+      "{% macro m() %}{% macro n() %}{% block b %}x{% endblock %}{% endmacro %}{{ n() }}{% endmacro %}{{ m() }}"; "{% apply upper %}{% block b %}x{% endblock %}{% endapply %}{% spaceless %}{% block c %} y {% endblock %}{% endspaceless %}";
+      "{% block a %}{% block b %}{% block a %}x{% endblock %}{% endblock %}{% endblock %}"; "{% block a %}{% block b %}{% block c %}{% block a %}x{% endblock %}{% endblock %}{% endblock %}{% endblock %}";
       "{% block a %}{% if true %}{% block b %}{% for i in [1] %}{% block a %}y{% endblock %}{% endfor %}{% endblock %}{% endif %}{% endblock %}";
       "{% extends 'base' %}{% block body %}{% block other %}{% block body %}x{% endblock %}{% endblock %}{% endblock %}";
       "{% block a %}{% block b %}{% endblock %}{% endblock %}{% block b %}{% block a %}{% endblock %}{% endblock %}"; "{% block a %}{% block a %}x{% endblock %}{% endblock %}";
